@@ -2,9 +2,39 @@
 // Model-based monitor: every public nng_msg_* edit is mirrored on a pair of
 // plain byte vectors; after every step the full observable state (return
 // code, header bytes, body bytes, lengths, capacity>=len) is compared.
-// Modes: "exh" exhaustive short sequences over a reduced alphabet,
-//        "rand" long random sequences with boundary-biased sizes.
+// Modes: "exh3"/"exh4" exhaustive short sequences over a reduced alphabet,
+//        "rand" long random sequences with boundary-biased sizes,
+//        "huge" requests that no allocation can satisfy (near SIZE_MAX, and
+//               2^27..2^40 against a 64 MiB allocation limit),
+//        "alias" the source of an append/insert lies inside the message itself
+//               (own violation key family C17/alias/..., own run line in the spec).
+// Which allocator path a step took (in place / regrow at offset 0 / regrow
+// with data at a non-zero offset; insert through headroom / slack split /
+// regrow; trim to empty) is derived from observable quantities only: the body
+// pointer, nng_msg_capacity and the heap block that holds the body (ASan's
+// __asan_locate_address); it is recorded as classes path/... and stats path_*.
 #include "vfh.h"
+#include "core/nng_impl.h" // white box: nni_msg_pull_up / nni_msg_clone (alias mode)
+#include <errno.h>
+#include <fcntl.h>
+#include <signal.h>
+#include <sys/resource.h>
+#include <sys/wait.h>
+#include <unistd.h>
+
+#if defined(__SANITIZE_ADDRESS__)
+#include <sanitizer/asan_interface.h>
+#define C17_ASAN 1
+// Requests above 64 MiB are refused by the allocator (returns NULL): lets the
+// huge mode ask for 2^27..2^40 bytes without ever touching that much memory.
+// No other mode needs more than 64 KiB + headroom.
+const char *__asan_default_options(void);
+const char *
+__asan_default_options(void)
+{
+	return "max_allocation_size_mb=64";
+}
+#endif
 
 #define HDR_MAX 64
 #define BODY_MAX (1 << 16)
@@ -43,37 +73,168 @@ lencls(size_t n)
 	return ">2048";
 }
 
-static bool
-compare(nng_msg *msg, const model *m, const char *op)
+// Difference between the real message and the model: 0 = none.
+enum { D_OK, D_LEN, D_HDR, D_BODY, D_CAP };
+static const char *dnames[] = { "ok", "length", "header-bytes", "body-bytes", "capacity-below-length" };
+
+static int
+msg_diff(nng_msg *msg, const model *m, char *why, size_t wsz)
 {
 	size_t hl = nng_msg_header_len(msg);
 	size_t bl = nng_msg_len(msg);
+	why[0] = 0;
 	if (hl != m->hlen || bl != m->blen) {
-		vf_violation("C17/model/length",
-		    "after %s: header_len=%zu body_len=%zu, model %zu/%zu", op, hl,
-		    bl, m->hlen, m->blen);
-		return false;
+		snprintf(why, wsz, "header_len=%zu body_len=%zu, model %zu/%zu", hl, bl, m->hlen, m->blen);
+		return D_LEN;
 	}
 	if (hl && memcmp(nng_msg_header(msg), m->hdr, hl) != 0) {
-		vf_violation(
-		    "C17/model/header-bytes", "after %s: header bytes differ", op);
-		return false;
+		size_t i = 0;
+		const uint8_t *b = nng_msg_header(msg);
+		while (i < hl && b[i] == m->hdr[i]) i++;
+		snprintf(why, wsz, "header differs at offset %zu of %zu (got %02x want %02x)", i, hl, b[i], m->hdr[i]);
+		return D_HDR;
 	}
 	if (bl && memcmp(nng_msg_body(msg), m->body, bl) != 0) {
 		size_t i = 0;
 		const uint8_t *b = nng_msg_body(msg);
 		while (i < bl && b[i] == m->body[i]) i++;
-		vf_violation("C17/model/body-bytes",
-		    "after %s: body differs at offset %zu of %zu (got %02x want %02x)",
-		    op, i, bl, b[i], m->body[i]);
-		return false;
+		snprintf(why, wsz, "body differs at offset %zu of %zu (got %02x want %02x)", i, bl, b[i], m->body[i]);
+		return D_BODY;
 	}
 	if (nng_msg_capacity(msg) < bl) {
-		vf_violation("C17/capacity-below-length",
-		    "after %s: capacity %zu < len %zu", op, nng_msg_capacity(msg), bl);
-		return false;
+		snprintf(why, wsz, "capacity %zu < len %zu", nng_msg_capacity(msg), bl);
+		return D_CAP;
 	}
-	return true;
+	return D_OK;
+}
+
+static bool
+compare(nng_msg *msg, const model *m, const char *op)
+{
+	char why[160];
+	switch (msg_diff(msg, m, why, sizeof(why))) {
+	case D_OK: return true;
+	case D_LEN: vf_violation("C17/model/length", "after %s: %s", op, why); break;
+	case D_HDR: vf_violation("C17/model/header-bytes", "after %s: %s", op, why); break;
+	case D_BODY: vf_violation("C17/model/body-bytes", "after %s: %s", op, why); break;
+	default: vf_violation("C17/capacity-below-length", "after %s: %s", op, why); break;
+	}
+	return false;
+}
+
+// --- storage geometry from observable quantities (no library internals):
+// the heap block that holds the body pointer is found with ASan; the bytes
+// the accounting allocator puts in front of a block are calibrated once with
+// nng_alloc.  head = bytes in front of the body inside the block (the
+// "headroom" / data offset), tail = free bytes behind the body.
+typedef struct {
+	bool           ok;
+	const uint8_t *buf;  // first byte of the chunk storage
+	const uint8_t *body;
+	size_t         cap, head, tail, len;
+} geom;
+
+static bool   geom_on;
+static size_t geom_front;
+
+static void
+geom_calibrate(void)
+{
+#ifdef C17_ASAN
+	uint8_t *p = nng_alloc(100);
+	char     name[16];
+	void    *ra = NULL;
+	size_t   rs = 0;
+	if (p == NULL) return;
+	const char *k = __asan_locate_address(p, name, sizeof(name), &ra, &rs);
+	if (k != NULL && !strcmp(k, "heap") && ra != NULL && (uint8_t *) ra <= p && rs >= 100 &&
+	    (size_t) (p - (uint8_t *) ra) == rs - 100) {
+		geom_front = (size_t) (p - (uint8_t *) ra);
+		geom_on    = true;
+	}
+	nng_free(p, 100);
+#endif
+}
+
+static void
+geom_of(nng_msg *msg, geom *g)
+{
+	memset(g, 0, sizeof(*g));
+	g->len  = nng_msg_len(msg);
+	g->body = nng_msg_body(msg);
+#ifdef C17_ASAN
+	if (!geom_on || g->body == NULL) return;
+	char   name[16];
+	void  *ra = NULL;
+	size_t rs = 0;
+	const char *k = __asan_locate_address((void *) g->body, name, sizeof(name), &ra, &rs);
+	if (k == NULL || strcmp(k, "heap") != 0 || ra == NULL || rs < geom_front) return;
+	g->buf = (const uint8_t *) ra + geom_front;
+	g->cap = rs - geom_front;
+	if (g->body < g->buf || g->body > g->buf + g->cap) return;
+	g->head = (size_t) (g->body - g->buf);
+	if (g->len > g->cap - g->head) return;
+	g->tail = g->cap - g->head - g->len;
+	// cross-check with the public view of the same quantity
+	if (nng_msg_capacity(msg) != g->cap - g->head) {
+		vf_stat("path_geom_inconsistent", 1);
+		return;
+	}
+	g->ok = true;
+#endif
+}
+
+static const char *
+offcls(size_t h)
+{
+	return h == 0 ? "off0" : h < 32 ? "off1-31" : h == 32 ? "off32" : h < 1024 ? "off33-1023" : "off1024+";
+}
+static const char *
+tailcls(size_t t)
+{
+	return t == 0 ? "tail0" : t < 8 ? "tail1-7" : t <= 32 ? "tail8-32" : "tail33+";
+}
+
+enum { F_APPEND, F_INSERT, F_REALLOC, F_RESERVE, F_TRIM };
+static const char *fnames[] = { "append", "insert", "realloc", "reserve", "trim" };
+
+// branch a successful growing / removing step took, from before/after geometry
+static const char *
+path_branch(int fam, size_t n, const geom *a, const geom *b)
+{
+	bool moved = a->buf != b->buf;
+	switch (fam) {
+	case F_INSERT:
+		if (!moved && b->body + n == a->body) return "headroom";
+		if (!moved) return "split";
+		return a->head == 0 ? "regrow-off0" : "regrow-offnz";
+	case F_TRIM:
+		return b->len == 0 ? "toempty" : "advance";
+	default:
+		if (!moved) return "inplace";
+		return a->head == 0 ? "regrow-off0" : "regrow-offnz";
+	}
+}
+
+static void
+path_note(int fam, size_t n, const geom *a, nng_msg *msg)
+{
+	geom b;
+	char key[64];
+	if (n == 0) return;
+	geom_of(msg, &b);
+	if (!a->ok || !b.ok) {
+		vf_stat("path_unknown", 1);
+		return;
+	}
+	const char *br = path_branch(fam, n, a, &b);
+	snprintf(key, sizeof(key), "path_%s_%s", fnames[fam], br);
+	vf_stat(key, 1);
+	vf_class("path/%s/%s/%s/%s/%s", fnames[fam], br, offcls(a->head), tailcls(a->tail), a->len == 0 ? "empty" : "data");
+	if (a->buf != b.buf && b.head == a->head && a->head != 0) vf_stat("path_regrow_kept_offset", 1);
+	vf_stat_max("max_offset", (long) b.head);
+	vf_stat_max("max_body_len", (long) b.len);
+	vf_stat_max("max_storage", (long) b.cap);
 }
 
 // operation codes
@@ -116,7 +277,11 @@ apply(nng_msg **pmsg, model *m, int op, size_t arg, int w, uint64_t fillkey)
 	char     desc[96];
 	uint64_t val = vf_mix64(fillkey);
 	uint8_t  vb[8];
+	geom     g0;
+	int      fam  = -1; // allocator path family of this step (F_*), -1 none
+	size_t   pn   = 0;  // bytes the step adds / removes
 
+	geom_of(msg, &g0);
 	snprintf(desc, sizeof(desc), "%s(%zu,w=%d) on len=%zu hdr=%zu",
 	    opnames[op], arg, w, m->blen, m->hlen);
 	steps++;
@@ -127,6 +292,7 @@ apply(nng_msg **pmsg, model *m, int op, size_t arg, int w, uint64_t fillkey)
 		rv = nng_msg_append(msg, scratch, arg);
 		memcpy(m->body + m->blen, scratch, arg);
 		m->blen += arg;
+		fam = F_APPEND; pn = arg;
 		break;
 	case OP_INSERT:
 		if (m->blen + arg > BODY_MAX) return true;
@@ -135,11 +301,12 @@ apply(nng_msg **pmsg, model *m, int op, size_t arg, int w, uint64_t fillkey)
 		memmove(m->body + arg, m->body, m->blen);
 		memcpy(m->body, scratch, arg);
 		m->blen += arg;
+		fam = F_INSERT; pn = arg;
 		break;
 	case OP_TRIM:
 		rv = nng_msg_trim(msg, arg);
 		if (arg > m->blen) mrv = NNG_EINVAL;
-		else { memmove(m->body, m->body + arg, m->blen - arg); m->blen -= arg; }
+		else { memmove(m->body, m->body + arg, m->blen - arg); m->blen -= arg; fam = F_TRIM; pn = arg; }
 		break;
 	case OP_CHOP:
 		rv = nng_msg_chop(msg, arg);
@@ -188,6 +355,7 @@ apply(nng_msg **pmsg, model *m, int op, size_t arg, int w, uint64_t fillkey)
 			memcpy(m->body, vb, (size_t) w);
 		}
 		m->blen += (size_t) w;
+		fam = op == OP_APPEND_U ? F_APPEND : F_INSERT; pn = (size_t) w;
 		break;
 	case OP_TRIM_U:
 	case OP_CHOP_U: {
@@ -199,8 +367,15 @@ apply(nng_msg **pmsg, model *m, int op, size_t arg, int w, uint64_t fillkey)
 		else
 			rv = w == 2 ? nng_msg_chop_u16(msg, &v16) : w == 4 ? nng_msg_chop_u32(msg, &v32) : nng_msg_chop_u64(msg, &v64);
 		got = w == 2 ? v16 : w == 4 ? v32 : v64;
-		if ((size_t) w > m->blen) mrv = NNG_EINVAL;
-		else {
+		if ((size_t) w > m->blen) {
+			mrv = NNG_EINVAL;
+			// "no change": a refused call must not have stored a value either
+			if (got != (w == 2 ? 0xdeadULL : w == 4 ? 0xdeadbeefULL : 0xdeadbeefcafef00dULL)) {
+				vf_violation("C17/einval-wrote-output", "%s: refused (rv %d) but the output variable now holds %llx", desc, rv, (unsigned long long) got);
+				return false;
+			}
+		} else {
+			if (front) { fam = F_TRIM; pn = (size_t) w; }
 			if (front) { want = be_get(m->body, w); memmove(m->body, m->body + w, m->blen - (size_t) w); }
 			else want = be_get(m->body + m->blen - w, w);
 			m->blen -= (size_t) w;
@@ -234,8 +409,13 @@ apply(nng_msg **pmsg, model *m, int op, size_t arg, int w, uint64_t fillkey)
 		else
 			rv = w == 2 ? nng_msg_header_chop_u16(msg, &v16) : w == 4 ? nng_msg_header_chop_u32(msg, &v32) : nng_msg_header_chop_u64(msg, &v64);
 		got = w == 2 ? v16 : w == 4 ? v32 : v64;
-		if ((size_t) w > m->hlen) mrv = NNG_EINVAL;
-		else {
+		if ((size_t) w > m->hlen) {
+			mrv = NNG_EINVAL;
+			if (got != (w == 2 ? 0xdeadULL : w == 4 ? 0xdeadbeefULL : 0xdeadbeefcafef00dULL)) {
+				vf_violation("C17/einval-wrote-output", "%s: refused (rv %d) but the output variable now holds %llx", desc, rv, (unsigned long long) got);
+				return false;
+			}
+		} else {
 			if (front) { want = be_get(m->hdr, w); memmove(m->hdr, m->hdr + w, m->hlen - (size_t) w); }
 			else want = be_get(m->hdr + m->hlen - w, w);
 			m->hlen -= (size_t) w;
@@ -250,6 +430,7 @@ apply(nng_msg **pmsg, model *m, int op, size_t arg, int w, uint64_t fillkey)
 	case OP_REALLOC:
 		if (arg > BODY_MAX) return true;
 		rv = nng_msg_realloc(msg, arg);
+		if (arg > m->blen) { fam = F_REALLOC; pn = arg - m->blen; }
 		if (rv == 0 && arg > m->blen) {
 			// new bytes are unspecified: define them (application write)
 			if (nng_msg_len(msg) == arg) {
@@ -270,6 +451,7 @@ apply(nng_msg **pmsg, model *m, int op, size_t arg, int w, uint64_t fillkey)
 	case OP_RESERVE:
 		if (arg > BODY_MAX) return true;
 		rv = nng_msg_reserve(msg, arg);
+		if (g0.ok && arg > g0.cap - g0.head) { fam = F_RESERVE; pn = arg - (g0.cap - g0.head); }
 		if (rv == 0 && nng_msg_capacity(msg) < arg) {
 			vf_violation("C17/reserve-capacity", "%s: capacity %zu after reserve", desc, nng_msg_capacity(msg));
 			return false;
@@ -312,7 +494,9 @@ apply(nng_msg **pmsg, model *m, int op, size_t arg, int w, uint64_t fillkey)
 		return false;
 	}
 	vf_class("%s/%s/hdr%s/rv%d", opnames[op], lencls(m->blen), m->hlen == 0 ? "0" : m->hlen == HDR_MAX ? "full" : "some", rv);
-	return compare(msg, m, desc);
+	if (!compare(msg, m, desc)) return false;
+	if (fam >= 0 && rv == 0) path_note(fam, pn, &g0, msg);
+	return true;
 }
 
 static const size_t bias_sizes[] = { 0, 1, 2, 3, 4, 7, 8, 9, 15, 16, 17, 31, 32,
@@ -338,8 +522,20 @@ fresh(model *m, size_t sz, uint64_t key)
 {
 	nng_msg *msg;
 	if (nng_msg_alloc(&msg, sz) != 0) vf_harness_fail("nng_msg_alloc(%zu)", sz);
-	if (nng_msg_len(msg) != sz) {
-		vf_violation("C17/alloc-length", "alloc(%zu) gave len %zu", sz, nng_msg_len(msg));
+	if (nng_msg_len(msg) != sz || nng_msg_header_len(msg) != 0) {
+		vf_violation("C17/alloc-length", "alloc(%zu) gave len %zu header_len %zu", sz, nng_msg_len(msg), nng_msg_header_len(msg));
+	}
+	if (nng_msg_capacity(msg) < sz) {
+		vf_violation("C17/capacity-below-length", "after alloc(%zu): capacity %zu", sz, nng_msg_capacity(msg));
+	}
+	geom g;
+	geom_of(msg, &g);
+	if (g.ok) {
+		// "powers of two >= 1024 take the no-headroom path"
+		vf_stat(g.head == 0 ? "path_alloc_nohead" : "path_alloc_head", 1);
+		vf_class("path/alloc/%s/%s/%s", lencls(sz), offcls(g.head), tailcls(g.tail));
+	} else {
+		vf_stat("path_unknown", 1);
 	}
 	m->hlen = 0;
 	m->blen = sz;
@@ -389,6 +585,7 @@ run_exhaustive(int maxlen)
 				if ((idx & 0x3fff) == 0) vf_sample("{\"init\":%zu,\"ops\":\"%s\"}", einit[ii], seq);
 				nng_msg_free(msg);
 				vf_stat("cases", 1);
+				vf_stat("cases_exh", 1);
 				if ((idx & 0xfff) == 0) vf_watchdog(120);
 			}
 		}
@@ -435,70 +632,88 @@ run_random(void)
 		if ((c & 0x3ff) == 0) vf_sample("{\"init\":%zu,\"ops\":\"%s\"}", init, seq);
 		nng_msg_free(msg);
 		vf_stat("cases", 1);
+		vf_stat("cases_rand", 1);
 		if ((c & 0xff) == 0) vf_watchdog(120);
 	}
 	free(m.body);
 }
 
-// --- huge mode: sizes near SIZE_MAX.  No such request can be satisfied, so
-// every one of them must fail with NNG_ENOMEM and leave the message as it was
-// (a "success" would claim a length or capacity that the storage cannot
-// have); the accounting allocator refuses anything above 2^40 bytes.
+// --- huge mode: requests that cannot be satisfied.  Near SIZE_MAX (wrap of
+// size_t arithmetic) and, against the 64 MiB allocation limit set above,
+// around 2^27, 2^31, 2^32, 2^33 and 2^40 (a 32-bit intermediate in the chunk
+// arithmetic shows at 2^32+k but not at 2^62+k).  Every such request must
+// fail with NNG_ENOMEM and leave the message as it was (a "success" would
+// claim a length or capacity that the storage cannot have); the accounting
+// allocator refuses anything above 2^40 bytes, ASan anything above 64 MiB.
+static const char *hops[] = { "realloc", "reserve", "append", "insert", "alloc" };
+
+static void
+huge_one(model *m, long c, size_t init, int pre, const char *basecls, size_t arg, int op)
+{
+	vf_case_begin(c, "huge init=%zu pre=%d %s(%zx)", init, pre, hops[op], arg);
+	nng_msg *msg = fresh(m, init, (uint64_t) c);
+	bool     ok  = true;
+	// pre: 0 none, 1 trim 3 (more headroom), 2 insert 8 (less), 3 chop+realloc smaller
+	if (pre == 1 && m->blen >= 3) ok = apply(&msg, m, OP_TRIM, 3, 0, 1);
+	if (pre == 2) ok = apply(&msg, m, OP_INSERT, 8, 0, 2);
+	if (pre == 3 && m->blen >= 2) ok = apply(&msg, m, OP_CHOP, 1, 0, 3) && apply(&msg, m, OP_REALLOC, m->blen / 2, 0, 4);
+	int rv = 0;
+	steps++;
+	if (ok) {
+		nng_msg *other = NULL;
+		switch (op) {
+		case 0: rv = nng_msg_realloc(msg, arg); break;
+		case 1: rv = nng_msg_reserve(msg, arg); break;
+		case 2: rv = nng_msg_append(msg, scratch, arg); break;
+		case 3: rv = nng_msg_insert(msg, scratch, arg); break;
+		case 4:
+			rv = nng_msg_alloc(&other, arg);
+			if (rv == 0) {
+				vf_violation("C17/huge/alloc-succeeded", "nng_msg_alloc(%zx) returned 0 with len %zu capacity %zu", arg, nng_msg_len(other), nng_msg_capacity(other));
+				nng_msg_free(other);
+			}
+			break;
+		}
+		if (rv != NNG_ENOMEM) {
+			char key[64];
+			snprintf(key, sizeof(key), "C17/huge/%s-returned-%d", hops[op], rv);
+			vf_violation(key, "%s(%zx) on a message of %zu bytes (capacity %zu) returned %d (%s); length now %zu capacity %zu", hops[op], arg, m->blen, nng_msg_capacity(msg), rv, nng_strerror(rv), nng_msg_len(msg), nng_msg_capacity(msg));
+		} else {
+			vf_class("huge/%s/%s/pre%d/%s/enomem", hops[op], lencls(m->blen), pre, basecls);
+			if (compare(msg, m, "huge request refused") && nng_msg_capacity(msg) < nng_msg_len(msg)) {
+				vf_violation("C17/capacity-below-length", "after refused %s: capacity %zu < length %zu", hops[op], nng_msg_capacity(msg), nng_msg_len(msg));
+			}
+			// and the message still works
+			(void) apply(&msg, m, OP_APPEND, 5, 0, 5);
+		}
+	}
+	nng_msg_free(msg);
+	vf_stat("cases", 1);
+	vf_stat("cases_huge", 1);
+}
+
 static void
 run_huge(void)
 {
 	static const size_t inits[] = { 0, 1, 7, 31, 32, 33, 64, 1000, 1024, 4096 };
 	static const size_t below[] = { 0, 1, 2, 7, 8, 15, 16, 31, 32, 33, 47, 48, 63, 64, 65, 127, 128, 1023, 1024, 4095, 4096, 65535 };
-	static const char  *hops[]  = { "realloc", "reserve", "append", "insert", "alloc" };
+	static const size_t minits[] = { 0, 33, 1024 };
+	static const int    mbits[]  = { 27, 31, 32, 33, 40 };
+	static const long   mdelta[] = { -1025, -33, -32, -1, 0, 1, 32, 33, 1024 };
 	model m;
 	long  c = 0;
 	m_init(&m);
 	for (size_t ii = 0; ii < sizeof(inits) / sizeof(inits[0]); ii++) {
-		for (int pre = 0; pre < 4; pre++) { // 0 none, 1 trim 3 (more headroom), 2 insert 8 (less), 3 chop+realloc smaller
+		for (int pre = 0; pre < 4; pre++) {
 			for (int base = 0; base < 3; base++) { // SIZE_MAX - k, SIZE_MAX/2 + 1 + k, 2^62 + k
 				for (size_t bi = 0; bi < sizeof(below) / sizeof(below[0]); bi++) {
 					for (int op = 0; op < 5; op++, c++) {
-						if (!vf_want_case(c)) continue;
+						if ((c % vf_nshards) != vf_shard || !vf_want_case(c)) continue;
 						size_t k = below[bi];
 						size_t arg = base == 0 ? SIZE_MAX - k : base == 1 ? SIZE_MAX / 2 + 1 + k : ((size_t) 1 << 62) + k;
-						vf_case_begin(c, "huge init=%zu pre=%d %s(%zx)", inits[ii], pre, hops[op], arg);
-						nng_msg *msg = fresh(&m, inits[ii], (uint64_t) c);
-						bool     ok  = true;
-						if (pre == 1 && m.blen >= 3) ok = apply(&msg, &m, OP_TRIM, 3, 0, 1);
-						if (pre == 2) ok = apply(&msg, &m, OP_INSERT, 8, 0, 2);
-						if (pre == 3 && m.blen >= 2) ok = apply(&msg, &m, OP_CHOP, 1, 0, 3) && apply(&msg, &m, OP_REALLOC, m.blen / 2, 0, 4);
-						int rv = 0;
-						steps++;
-						if (ok) {
-							nng_msg *other = NULL;
-							switch (op) {
-							case 0: rv = nng_msg_realloc(msg, arg); break;
-							case 1: rv = nng_msg_reserve(msg, arg); break;
-							case 2: rv = nng_msg_append(msg, scratch, arg); break;
-							case 3: rv = nng_msg_insert(msg, scratch, arg); break;
-							case 4:
-								rv = nng_msg_alloc(&other, arg);
-								if (rv == 0) {
-									vf_violation("C17/huge/alloc-succeeded", "nng_msg_alloc(%zx) returned 0 with len %zu capacity %zu", arg, nng_msg_len(other), nng_msg_capacity(other));
-									nng_msg_free(other);
-								}
-								break;
-							}
-							if (rv != NNG_ENOMEM) {
-								char key[64];
-								snprintf(key, sizeof(key), "C17/huge/%s-returned-%d", hops[op], rv);
-								vf_violation(key, "%s(%zx) on a message of %zu bytes (capacity %zu) returned %d (%s); length now %zu capacity %zu", hops[op], arg, m.blen, nng_msg_capacity(msg), rv, nng_strerror(rv), nng_msg_len(msg), nng_msg_capacity(msg));
-							} else {
-								vf_class("huge/%s/%s/pre%d/base%d/enomem", hops[op], lencls(m.blen), pre, base);
-								if (compare(msg, &m, "huge request refused") && nng_msg_capacity(msg) < nng_msg_len(msg)) {
-									vf_violation("C17/capacity-below-length", "after refused %s: capacity %zu < length %zu", hops[op], nng_msg_capacity(msg), nng_msg_len(msg));
-								}
-								// and the message still works
-								(void) apply(&msg, &m, OP_APPEND, 5, 0, 5);
-							}
-						}
-						nng_msg_free(msg);
-						vf_stat("cases", 1);
+						char   bc[16];
+						snprintf(bc, sizeof(bc), "base%d", base);
+						huge_one(&m, c, inits[ii], pre, bc, arg, op);
 						vf_stat("huge_requests", 1);
 					}
 				}
@@ -506,19 +721,528 @@ run_huge(void)
 		}
 		vf_watchdog(120);
 	}
+	// middle sizes: only meaningful when the allocation limit is really in force
+	void *probe = nng_alloc((size_t) 1 << 27);
+	if (probe != NULL) {
+		nng_free(probe, (size_t) 1 << 27);
+		vf_stat("huge_mid_no_limit", 1);
+	} else {
+		for (size_t ii = 0; ii < sizeof(minits) / sizeof(minits[0]); ii++) {
+			for (int pre = 0; pre < 4; pre++) {
+				for (size_t b = 0; b < sizeof(mbits) / sizeof(mbits[0]); b++) {
+					for (size_t di = 0; di < sizeof(mdelta) / sizeof(mdelta[0]); di++) {
+						for (int op = 0; op < 5; op++, c++) {
+							if ((c % vf_nshards) != vf_shard || !vf_want_case(c)) continue;
+							size_t arg = (size_t) ((long) ((size_t) 1 << mbits[b]) + mdelta[di]);
+							char   bc[16];
+							snprintf(bc, sizeof(bc), "2^%d%s", mbits[b], mdelta[di] < 0 ? "-" : mdelta[di] > 0 ? "+" : "");
+							huge_one(&m, c, minits[ii], pre, bc, arg, op);
+							vf_stat("huge_mid_requests", 1);
+						}
+					}
+				}
+			}
+			vf_watchdog(120);
+		}
+	}
 	free(m.body);
+}
+
+// --- alias mode: the source of an append / insert is a part of the message
+// itself (nng_msg_append(m, nng_msg_body(m) + o, n) and friends).  The string
+// model: the source bytes are taken before the edit.  The library's own
+// nni_msg_pull_up does exactly this with the header as source, so it is driven
+// here too (unique and shared message).
+// A step that reads freed storage aborts under ASan; to keep going and to
+// report it under this mode's own key family (C17/alias/...), the cases run
+// in a forked child that streams one record per case through a pipe; when the
+// child dies inside a case the parent reports that case and forks a new child
+// behind it.  A correct library needs exactly one child.
+enum {
+	AK_APPEND_BODY, AK_INSERT_BODY, AK_APPEND_HDR, AK_INSERT_HDR, AK_HAPPEND_HDR, AK_HINSERT_HDR,
+	AK_HAPPEND_BODY, AK_HINSERT_BODY, AK_PULLUP, AK_PULLUP_SHARED, AK_N
+};
+static const char *aknames[] = { "append-own-body", "insert-own-body", "append-own-header",
+	"insert-own-header", "header_append-own-header", "header_insert-own-header",
+	"header_append-own-body", "header_insert-own-body", "pull_up", "pull_up-shared" };
+static const size_t ainit[]  = { 0, 7, 40, 100, 1024, 2048 };
+static const size_t ahfill[] = { 0, 24, 40 };
+#define A_NINIT 6
+#define A_NPRE 9
+#define A_NHF 3
+#define A_NNS 10
+#define A_NOS 3
+#define A_TOTAL ((long) AK_N * A_NINIT * A_NPRE * A_NHF * A_NNS * A_NOS)
+
+enum { AP_SETUP = 1, AP_OP, AP_DONE, AP_SKIP };
+enum { AS_OK = 0, AS_RC, AS_DIFF, AS_HOOK, AS_ORIGINAL_CHANGED };
+typedef struct {
+	long idx;
+	int  phase, kind, status, dcode, rv, mrv;
+	char ppath[24], opath[24], lcls[12];
+	char desc[120];
+	char why[176];
+} arec;
+
+// Classes (kind/predicted path/length class) in which a call already died
+// twice: the parent notes them, later children skip their remaining members
+// (a sanitizer report costs ~0.2 s; nothing new is learnt from the 20th one).
+#define A_MAXDEAD 256
+static struct { char cls[64]; int n; } a_dead[A_MAXDEAD];
+static int a_ndead;
+
+static int
+a_dead_count(const char *cls)
+{
+	for (int i = 0; i < a_ndead; i++) {
+		if (!strcmp(a_dead[i].cls, cls)) return a_dead[i].n;
+	}
+	return 0;
+}
+static void
+a_dead_note(const char *cls)
+{
+	for (int i = 0; i < a_ndead; i++) {
+		if (!strcmp(a_dead[i].cls, cls)) { a_dead[i].n++; return; }
+	}
+	if (a_ndead < A_MAXDEAD) {
+		snprintf(a_dead[a_ndead].cls, sizeof(a_dead[a_ndead].cls), "%s", cls);
+		a_dead[a_ndead++].n = 1;
+	}
+}
+
+static void
+a_send(int fd, const arec *r)
+{
+	const char *p = (const char *) r;
+	size_t      n = sizeof(*r);
+	while (n > 0) {
+		ssize_t w = write(fd, p, n);
+		if (w <= 0) {
+			if (w < 0 && errno == EINTR) continue;
+			_exit(3);
+		}
+		p += w;
+		n -= (size_t) w;
+	}
+}
+
+// nth distinct value of a candidate list; 0 = slot is a duplicate / unusable
+static size_t
+a_slot(const size_t *cand, int ncand, int slot, size_t lo, size_t hi)
+{
+	if (slot >= ncand) return 0;
+	size_t v = cand[slot];
+	if (v < lo || v > hi) return 0;
+	for (int i = 0; i < slot; i++) {
+		if (cand[i] == v) return 0;
+	}
+	return v;
+}
+
+static const char *
+a_predict(int fam, size_t n, const geom *g)
+{
+	if (!g->ok) return "unknown";
+	if (fam == F_APPEND) return n <= g->tail ? "inplace" : g->head == 0 ? "regrow-off0" : "regrow-offnz";
+	if (n <= g->head) return "headroom";
+	if (g->len + n + 8 <= g->cap) return "split";
+	return g->head == 0 ? "regrow-off0" : "regrow-offnz";
+}
+
+// runs in the child
+static void
+alias_case(long idx, int fd)
+{
+	static model   m;
+	static uint8_t src_copy[BODY_MAX];
+	arec           r;
+	long           x = idx;
+	int            oslot = (int) (x % A_NOS); x /= A_NOS;
+	int            nslot = (int) (x % A_NNS); x /= A_NNS;
+	int            hf    = (int) (x % A_NHF); x /= A_NHF;
+	int            pre   = (int) (x % A_NPRE); x /= A_NPRE;
+	int            ii    = (int) (x % A_NINIT); x /= A_NINIT;
+	int            kind  = (int) x;
+	bool           srcbody = kind == AK_APPEND_BODY || kind == AK_INSERT_BODY || kind == AK_HAPPEND_BODY || kind == AK_HINSERT_BODY;
+	bool           dsthdr  = kind >= AK_HAPPEND_HDR && kind <= AK_HINSERT_BODY;
+	bool           pullup  = kind >= AK_PULLUP;
+
+	if (m.body == NULL) m_init(&m);
+	// combinations that add nothing
+	if ((kind == AK_APPEND_BODY || kind == AK_INSERT_BODY) && hf != 1) return; // header plays no role
+	if ((kind == AK_HAPPEND_HDR || kind == AK_HINSERT_HDR) && (ii != 1 || pre != 0)) return; // body plays no role
+	if ((kind == AK_HAPPEND_BODY || kind == AK_HINSERT_BODY) && (pre > 1 || ii < 2 || ii > 3)) return;
+	if ((kind == AK_APPEND_HDR || kind == AK_INSERT_HDR) && hf == 0) return;
+	if (pullup && (nslot != 0 || oslot != 0)) return;
+
+	memset(&r, 0, sizeof(r));
+	r.idx   = idx;
+	r.kind  = kind;
+	r.phase = AP_SETUP;
+	a_send(fd, &r);
+	alarm(120);
+
+	long     v0  = vf_violations();
+	nng_msg *msg = fresh(&m, ainit[ii], (uint64_t) idx);
+	bool     ok  = true;
+	if (ahfill[hf]) ok = apply(&msg, &m, OP_HAPPEND, ahfill[hf], 0, (uint64_t) idx + 1);
+	switch (pre) { // shapes the storage: offset, slack, regrown, emptied
+	case 1: if (m.blen >= 3) ok = ok && apply(&msg, &m, OP_TRIM, 3, 0, 1); break;
+	case 2: if (m.blen >= 41) ok = ok && apply(&msg, &m, OP_TRIM, 40, 0, 2); break;
+	case 3: if (m.blen >= 11) ok = ok && apply(&msg, &m, OP_CHOP, 5, 0, 3) && apply(&msg, &m, OP_CHOP, 5, 0, 3); break;
+	case 4: ok = ok && apply(&msg, &m, OP_CHOP, m.blen / 2, 0, 4); break;
+	case 5: ok = ok && apply(&msg, &m, OP_INSERT, 8, 0, 5); break;
+	case 6: ok = ok && apply(&msg, &m, OP_INSERT, 40, 0, 6); break;
+	case 7: ok = ok && apply(&msg, &m, OP_APPEND, 1100, 0, 7); break;
+	case 8: ok = ok && apply(&msg, &m, OP_TRIM, m.blen, 0, 8) && apply(&msg, &m, OP_APPEND, 50, 0, 9); break;
+	default: break;
+	}
+	if (!ok) { // an ordinary oracle fired during the setup; it has been reported
+		r.phase = AP_SKIP;
+		a_send(fd, &r);
+		nng_msg_free(msg);
+		return;
+	}
+
+	geom g0;
+	geom_of(msg, &g0);
+	size_t   L = m.blen, H = m.hlen, n = 0, o = 0;
+	uint8_t *body = nng_msg_body(msg), *hdr = nng_msg_header(msg);
+	size_t   S = srcbody ? L : H; // size of the source string
+	if (!pullup) {
+		size_t cand[A_NNS];
+		int    nc = 0;
+		if (kind == AK_APPEND_BODY || kind == AK_INSERT_BODY) {
+			size_t smax = g0.ok && g0.cap >= L + 8 ? g0.cap - L - 8 : 0; // largest insert the slack split takes
+			cand[nc++] = 1; cand[nc++] = 8; cand[nc++] = L / 2; cand[nc++] = L;
+			if (g0.ok) {
+				cand[nc++] = g0.head; cand[nc++] = g0.head + 1; cand[nc++] = g0.tail; cand[nc++] = g0.tail + 1;
+				cand[nc++] = smax; cand[nc++] = smax + 1;
+			}
+		} else if (kind == AK_APPEND_HDR || kind == AK_INSERT_HDR) {
+			cand[nc++] = H; cand[nc++] = 8; cand[nc++] = 1;
+		} else {
+			// header is the destination: up to and beyond its fixed capacity
+			cand[nc++] = 1; cand[nc++] = 4; cand[nc++] = 8; cand[nc++] = H; cand[nc++] = HDR_MAX - H;
+			cand[nc++] = HDR_MAX - H + 1; cand[nc++] = 24; cand[nc++] = 25;
+		}
+		n = a_slot(cand, nc, nslot, 1, S);
+		if (n != 0) {
+			size_t oc[A_NOS] = { 0, (S - n) / 2, S - n };
+			o = a_slot(oc, A_NOS, oslot, 0, S) ;
+			if (oslot != 0 && o == 0) n = 0;
+		}
+		if (n == 0) {
+			r.phase = AP_SKIP;
+			a_send(fd, &r);
+			nng_msg_free(msg);
+			return;
+		}
+	}
+
+	const uint8_t *src = (srcbody ? body : hdr) + o;
+	int            fam = (kind == AK_APPEND_BODY || kind == AK_APPEND_HDR) ? F_APPEND : F_INSERT;
+	if (pullup) {
+		bool room = g0.ok && g0.cap - L >= H;
+		snprintf(r.ppath, sizeof(r.ppath), "%s", kind == AK_PULLUP_SHARED ? "copy-shared" : !g0.ok ? "unknown" : !room ? "copy" : H == 0 ? "inplace-nohdr" : a_predict(F_INSERT, H, &g0));
+		n = H;
+	} else if (dsthdr) {
+		snprintf(r.ppath, sizeof(r.ppath), "%s", H + n > HDR_MAX ? "hdr-einval" : "hdr");
+	} else {
+		snprintf(r.ppath, sizeof(r.ppath), "%s", a_predict(fam, n, &g0));
+	}
+	snprintf(r.lcls, sizeof(r.lcls), "%s", lencls(L));
+	snprintf(r.desc, sizeof(r.desc), "%s src=[%zu,+%zu) of %zu; body %zu hdr %zu head %zu tail %zu storage %zu",
+	    aknames[kind], o, n, S, L, H, g0.head, g0.tail, g0.cap);
+	{
+		char cls[64];
+		snprintf(cls, sizeof(cls), "%s/%s/%s", aknames[kind], r.ppath, r.lcls);
+		if (a_dead_count(cls) >= 2) {
+			r.phase  = AP_SKIP;
+			r.status = 1; // skipped because its class is known to die
+			a_send(fd, &r);
+			nng_msg_free(msg);
+			return;
+		}
+	}
+	r.phase = AP_OP;
+	a_send(fd, &r);
+
+	// the model takes the source bytes first
+	memcpy(src_copy, srcbody ? m.body + o : m.hdr + o, n);
+	model    before = m; // (shares m.body: only lengths / header are used)
+	nng_msg *orig   = NULL;
+	nng_msg *given  = msg;
+	steps++;
+	switch (kind) {
+	case AK_APPEND_BODY:
+	case AK_APPEND_HDR:
+		r.rv = nng_msg_append(msg, src, n);
+		memcpy(m.body + m.blen, src_copy, n);
+		m.blen += n;
+		break;
+	case AK_INSERT_BODY:
+	case AK_INSERT_HDR:
+		r.rv = nng_msg_insert(msg, src, n);
+		memmove(m.body + n, m.body, m.blen);
+		memcpy(m.body, src_copy, n);
+		m.blen += n;
+		break;
+	case AK_HAPPEND_HDR:
+	case AK_HAPPEND_BODY:
+		r.rv = nng_msg_header_append(msg, src, n);
+		if (H + n > HDR_MAX) r.mrv = NNG_EINVAL;
+		else { memcpy(m.hdr + H, src_copy, n); m.hlen += n; }
+		break;
+	case AK_HINSERT_HDR:
+	case AK_HINSERT_BODY:
+		r.rv = nng_msg_header_insert(msg, src, n);
+		if (H + n > HDR_MAX) r.mrv = NNG_EINVAL;
+		else { memmove(m.hdr + n, m.hdr, H); memcpy(m.hdr, src_copy, n); m.hlen += n; }
+		break;
+	default: // pull_up: body := header + body, header := empty
+		if (kind == AK_PULLUP_SHARED) { nni_msg_clone(msg); orig = msg; }
+		msg = nni_msg_pull_up(msg);
+		if (msg == NULL) vf_harness_fail("nni_msg_pull_up returned NULL");
+		memmove(m.body + H, m.body, L);
+		memcpy(m.body, src_copy, H);
+		m.blen += H;
+		m.hlen = 0;
+		break;
+	}
+	if (r.rv != r.mrv) {
+		r.status = AS_RC;
+		snprintf(r.why, sizeof(r.why), "returned %d (%s), model %d", r.rv, nng_strerror(r.rv), r.mrv);
+	} else if ((r.dcode = msg_diff(msg, &m, r.why, sizeof(r.why))) != D_OK) {
+		r.status = AS_DIFF;
+	}
+	geom g1;
+	geom_of(msg, &g1);
+	if (pullup) {
+		snprintf(r.opath, sizeof(r.opath), "%s", kind == AK_PULLUP_SHARED ? (msg != orig ? "copy-shared" : "inplace-shared!") : !g0.ok || !g1.ok ? "unknown" : msg != given ? "copy" : H == 0 ? "inplace-nohdr" : path_branch(F_INSERT, H, &g0, &g1));
+	} else if (dsthdr) {
+		snprintf(r.opath, sizeof(r.opath), "%s", r.rv == NNG_EINVAL ? "hdr-einval" : "hdr");
+	} else {
+		snprintf(r.opath, sizeof(r.opath), "%s", g0.ok && g1.ok ? path_branch(fam, n, &g0, &g1) : "unknown");
+	}
+	if (orig != NULL && r.status == AS_OK) {
+		// the other holder's message must be what it was (and still alive)
+		uint8_t *keep = m.body;
+		model    old  = before;
+		old.body      = malloc(BODY_MAX);
+		memcpy(old.body, keep + H, L); // m.body now holds header+body
+		old.blen = L;
+		if (orig == msg) {
+			r.status = AS_ORIGINAL_CHANGED;
+			snprintf(r.why, sizeof(r.why), "pull_up edited a message that has another holder in place");
+		} else if (msg_diff(orig, &old, r.why, sizeof(r.why)) != D_OK) {
+			r.status = AS_ORIGINAL_CHANGED;
+		}
+		free(old.body);
+	}
+	if (orig != NULL && orig != msg) nng_msg_free(orig);
+	// and the message is still usable
+	if (r.status == AS_OK) {
+		(void) apply(&msg, &m, OP_APPEND, 5, 0, 11);
+		(void) apply(&msg, &m, OP_TRIM, 1, 0, 12);
+	}
+	nng_msg_free(msg);
+	if (r.status == AS_OK && vf_violations() != v0) {
+		r.status = AS_HOOK;
+		snprintf(r.why, sizeof(r.why), "a storage hook or a follow-up step reported a violation (see its own key)");
+	}
+	r.phase = AP_DONE;
+	a_send(fd, &r);
+}
+
+// What killed the child, in words that the driver's sanitizer parser ignores.
+static void
+alias_crash_text(int errfd, int wstatus, char *kind, size_t ksz, char *text, size_t tsz)
+{
+	static char buf[16384];
+	ssize_t     n = pread(errfd, buf, sizeof(buf) - 1, 0);
+	kind[0] = text[0] = 0;
+	if (n < 0) n = 0;
+	buf[n] = 0;
+	char *a = strstr(buf, "AddressSanitizer: ");
+	char *u = strstr(buf, "runtime error: ");
+	if (a != NULL) {
+		a += strlen("AddressSanitizer: ");
+		size_t i = 0;
+		while (a[i] && (a[i] == '-' || a[i] == '_' || (a[i] >= 'a' && a[i] <= 'z') || (a[i] >= 'A' && a[i] <= 'Z')) && i + 1 < ksz) { kind[i] = a[i]; i++; }
+		kind[i] = 0;
+	} else if (u != NULL) {
+		snprintf(kind, ksz, "ubsan");
+	} else if (strstr(buf, "panic: ") != NULL) {
+		snprintf(kind, ksz, "panic");
+	} else if (WIFSIGNALED(wstatus)) {
+		snprintf(kind, ksz, "signal-%d", WTERMSIG(wstatus));
+	} else {
+		snprintf(kind, ksz, "exit-%d", WEXITSTATUS(wstatus));
+	}
+	// innermost frames of the first stack
+	size_t tl = 0;
+	int    frames = 0;
+	for (char *p = strstr(buf, "    #0 "); p != NULL && frames < 5; frames++) {
+		char *in = strstr(p, " in ");
+		char *nl = strchr(p, '\n');
+		if (in == NULL || nl == NULL || in > nl) break;
+		in += 4;
+		char *sp = in;
+		while (sp < nl && *sp != ' ') sp++;
+		if (tl + (size_t) (sp - in) + 4 < tsz) tl += (size_t) snprintf(text + tl, tsz - tl, "%s%.*s", frames ? " < " : "", (int) (sp - in), in);
+		p = nl + 1;
+		if (strncmp(p, "    #", 5) != 0) break;
+	}
+	if (u != NULL && tl + 100 < tsz) {
+		char *nl = strchr(u, '\n');
+		snprintf(text + tl, tsz - tl, " (%.*s)", nl ? (int) (nl - u > 90 ? 90 : nl - u) : 0, u + strlen("runtime error: "));
+	}
+}
+
+static void
+run_alias(void)
+{
+	long next = 0;
+	long forks = 0;
+	vf_msleep(50); // (the watchdog thread has long finished starting)
+	vf_watchdog(600);
+	while (next < A_TOTAL) {
+		int  pfd[2];
+		char tmpl[] = "/tmp/c17-alias-XXXXXX";
+		int  errfd  = mkstemp(tmpl);
+		if (errfd < 0 || pipe(pfd) != 0) vf_harness_fail("alias: mkstemp/pipe: %s", strerror(errno));
+		unlink(tmpl);
+		fflush(NULL);
+		pid_t pid = fork();
+		if (pid < 0) vf_harness_fail("alias: fork: %s", strerror(errno));
+		if (pid == 0) {
+			struct rlimit rl = { 0, 0 };
+			signal(SIGABRT, SIG_DFL); // not the parent's crash record
+			signal(SIGALRM, SIG_DFL);
+			setrlimit(RLIMIT_CORE, &rl);
+			dup2(errfd, 2);
+			close(pfd[0]);
+			alarm(120);
+			// the library is started here, never in the parent: at the time of
+			// the fork the parent has no thread that could hold an allocator lock
+			vf_nng_init(2, 1, 1);
+			geom_calibrate();
+			for (long idx = next; idx < A_TOTAL; idx++) {
+				if ((idx % vf_nshards) != vf_shard || !vf_want_case(idx)) continue;
+				alias_case(idx, pfd[1]);
+			}
+			_exit(0);
+		}
+		forks++;
+		close(pfd[1]);
+		arec r, cur;
+		bool pending = false;
+		memset(&cur, 0, sizeof(cur));
+		for (;;) {
+			size_t got = 0;
+			while (got < sizeof(r)) {
+				ssize_t k = read(pfd[0], (char *) &r + got, sizeof(r) - got);
+				if (k < 0 && errno == EINTR) continue;
+				if (k <= 0) break;
+				got += (size_t) k;
+			}
+			if (got < sizeof(r)) break;
+			vf_watchdog(600);
+			switch (r.phase) {
+			case AP_SETUP:
+				cur     = r;
+				pending = true;
+				vf_case_begin(r.idx, "alias %s (setting up)", aknames[r.kind]);
+				break;
+			case AP_OP:
+				cur = r;
+				vf_case_begin(r.idx, "alias %s", r.desc);
+				break;
+			case AP_SKIP:
+				pending = false;
+				vf_stat(r.status ? "alias_skipped_class_known_to_die" : "alias_slots_unused", 1);
+				break;
+			case AP_DONE:
+				pending = false;
+				vf_stat("cases", 1);
+				vf_stat("cases_alias", 1);
+				if (strcmp(r.ppath, r.opath) != 0) {
+					vf_stat("alias_path_mispredicted", 1);
+					if (vf_verbose) fprintf(stderr, "alias: predicted %s, took %s: %s\n", r.ppath, r.opath, r.desc);
+				}
+				vf_class("alias/%s/%s/%s/rv%d/%s", aknames[r.kind], r.opath, r.lcls, r.rv,
+				    r.status == AS_OK ? "ok" : "bad");
+				if ((r.idx % 257) == 0) vf_sample("{\"alias\":\"%s\",\"path\":\"%s\"}", r.desc, r.opath);
+				if (r.status != AS_OK) {
+					char key[128];
+					snprintf(key, sizeof(key), "C17/alias/%s/%s/%s", aknames[r.kind], r.ppath,
+					    r.status == AS_RC ? "return-code" : r.status == AS_DIFF ? dnames[r.dcode] : r.status == AS_HOOK ? "hook" : "original-changed");
+					vf_violation(key, "%s: %s (path taken: %s)", r.desc, r.why, r.opath);
+				}
+				break;
+			default:
+				vf_harness_fail("alias: bad record from the child");
+			}
+		}
+		close(pfd[0]);
+		int ws = 0;
+		while (waitpid(pid, &ws, 0) < 0 && errno == EINTR) {
+		}
+		if (pending) {
+			// the child died inside case cur.idx
+			char kind[48], text[400], key[160];
+			alias_crash_text(errfd, ws, kind, sizeof(kind), text, sizeof(text));
+			if (WIFSIGNALED(ws) && WTERMSIG(ws) == SIGALRM) {
+				vf_harness_fail("alias: the child made no progress for 120 s in case %ld", cur.idx);
+			}
+			if (cur.phase == AP_SETUP) {
+				snprintf(key, sizeof(key), "C17/alias/setup/%s", kind);
+				vf_violation(key, "ordinary edits that prepare alias case %ld (%s) died: %s %s", cur.idx, aknames[cur.kind], kind, text);
+			} else {
+				snprintf(key, sizeof(key), "C17/alias/%s/%s/%s", aknames[cur.kind], cur.ppath, kind);
+				vf_violation(key, "%s: the call died with a %s report [%s]", cur.desc, kind, text);
+				vf_stat("cases", 1);
+				vf_stat("cases_alias", 1);
+				vf_stat("alias_died", 1);
+				vf_class("alias/%s/%s/%s/died/bad", aknames[cur.kind], cur.ppath, cur.lcls);
+				snprintf(key, sizeof(key), "%s/%s/%s", aknames[cur.kind], cur.ppath, cur.lcls);
+				a_dead_note(key);
+			}
+			next = cur.idx + 1;
+		} else if (WIFEXITED(ws) && WEXITSTATUS(ws) == 0) {
+			next = A_TOTAL;
+		} else {
+			vf_harness_fail("alias: the child ended with status 0x%x outside a case", ws);
+		}
+		close(errfd);
+		if (vf_only >= 0) break;
+	}
+	vf_stat("alias_children", forks);
 }
 
 int
 main(int argc, char **argv)
 {
+	char key[32];
 	vf_init(argc, argv);
+	if (!strcmp(vf_mode, "alias")) {
+		// forks; the children start the library themselves
+		run_alias();
+		return vf_finish();
+	}
 	vf_nng_init(2, 1, 1);
+	geom_calibrate();
+	if (!geom_on) vf_stat("path_observer_off", 1);
 	if (!strcmp(vf_mode, "exh3")) run_exhaustive(3);
 	else if (!strcmp(vf_mode, "exh4")) run_exhaustive(4);
 	else if (!strcmp(vf_mode, "huge")) run_huge();
-	else run_random();
+	else if (!strcmp(vf_mode, "rand") || !strcmp(vf_mode, "")) run_random();
+	else vf_harness_fail("unknown mode '%s'", vf_mode);
 	vf_stat("steps", steps);
+	snprintf(key, sizeof(key), "steps_%.20s", !strncmp(vf_mode, "exh", 3) ? "exh" : !strcmp(vf_mode, "huge") ? "huge" : "rand");
+	vf_stat(key, steps);
 	vf_nng_fini("C17");
 	return vf_finish();
 }
